@@ -23,6 +23,52 @@ type ReadCase struct {
 	Vals     []*model.Value  `json:"vals"`
 	Input    string          `json:"input_shown,omitempty"`
 	InputHex string          `json:"input_hex,omitempty"`
+	// Pad > 0: that many bytes of filler (whitespace and comments / NOP pads) precede the
+	// rendered values, which moves them across the reader's internal buffer boundaries.
+	Pad int `json:"pad,omitempty"`
+}
+
+// filler returns exactly n bytes that denote nothing.
+func filler(binary bool, n int, seed int64) []byte {
+	if n <= 0 {
+		return nil
+	}
+	if binary {
+		e := refbin.NewEncoder(nil, nil)
+		var out []byte
+		if seed%2 == 0 {
+			for n > 300 {
+				out = append(out, e.NOP(200)...)
+				n -= 200
+			}
+		}
+		for n > 16000 {
+			out = append(out, e.NOP(16000)...)
+			n -= 16000
+		}
+		return append(out, e.NOP(n)...)
+	}
+	out := make([]byte, 0, n)
+	switch {
+	case seed%3 == 0 && n >= 5:
+		out = append(out, "/*"...)
+		for len(out) < n-3 {
+			out = append(out, "x* /'\""[len(out)%6])
+		}
+		if out[len(out)-1] == '*' {
+			out[len(out)-1] = 'x'
+		}
+		out = append(out, "*/ "...)
+	default:
+		for len(out) < n {
+			if len(out)%61 == 60 {
+				out = append(out, '\n')
+			} else {
+				out = append(out, ' ')
+			}
+		}
+	}
+	return out
 }
 
 // render produces the input for the case; unordered is set when struct field order may differ.
@@ -34,11 +80,19 @@ func (k *ReadCase) render() (data []byte, unordered bool, feats map[string]int, 
 		if err != nil {
 			return nil, false, nil, err
 		}
+		if k.Pad > 0 && len(enc.Bytes) >= 4 {
+			d := append([]byte{}, enc.Bytes[:4]...)
+			d = append(d, filler(true, k.Pad, k.CaseSeed)...)
+			return append(d, enc.Bytes[4:]...), enc.UnorderedStructs, ch.Feat, nil
+		}
 		return enc.Bytes, enc.UnorderedStructs, ch.Feat, nil
 	}
 	s, err := reftext.Print(k.Vals, ch)
 	if err != nil {
 		return nil, false, nil, err
+	}
+	if k.Pad > 0 {
+		return append(filler(false, k.Pad, k.CaseSeed), s...), false, ch.Feat, nil
 	}
 	return []byte(s), false, ch.Feat, nil
 }
@@ -211,6 +265,42 @@ func runReadMonitor(c *Ctx, sub string, binary bool) {
 			}
 		}
 	})
+	// buffer-boundary sweep: short documents shifted by filler so that every sampled offset of the
+	// document in turn coincides with a multiple of 4096 (the readers buffer their input)
+	nb := c.N(120, 4000)
+	c.Parallel(nb, func(w, i int) {
+		cs := c.Seed*2_000_003 + 7_000_000 + int64(i)
+		g := gen.New(cs)
+		g.MaxLen = 24
+		g.MaxDepth = 3
+		vals := g.Stream()
+		k := ReadCase{CaseSeed: cs, Binary: binary, P: []float64{0.1, 0.3}[i%2], Vals: vals}
+		base, _, _, err := k.render()
+		if err != nil {
+			return
+		}
+		L := len(base)
+		if binary {
+			L -= 4
+		}
+		r := rand.New(rand.NewSource(cs))
+		step := 1
+		if L > 48 {
+			step = L / 48
+		}
+		for o := 1; o < L; o += step {
+			kk := k
+			kk.Pad = []int{4096, 8192, 4096, 12288}[r.Intn(4)] - o
+			if binary {
+				kk.Pad -= 4
+			}
+			c.JournalCase(w, fmt.Sprintf("%s-boundary case_seed=%d pad=%d", sub, cs, kk.Pad))
+			if ran, _ := runReadCase(c, sub+"-buffer-boundary", kk); ran {
+				c.NonTrivial(fmt.Sprintf("b|%d|%d", cs, kk.Pad))
+				c.Obs("buffer_boundary_positions", 1)
+			}
+		}
+	})
 	// per-kind pass: every kind x typed null x annotated, with heavy spelling variation
 	g := gen.New(c.Seed + 99)
 	var grid []ReadCase
@@ -238,6 +328,11 @@ func runReadMonitor(c *Ctx, sub string, binary bool) {
 				}
 				grid = append(grid, ReadCase{CaseSeed: c.Seed*31 + int64(len(grid)), Binary: binary, P: []float64{0.2, 0.5, 0.8}[(rep+vi)%3], Vals: vs})
 			}
+		}
+	}
+	for li, vs := range LookalikeStreams() {
+		for rep := 0; rep < c.N(12, 60); rep++ {
+			grid = append(grid, ReadCase{CaseSeed: c.Seed*37 + int64(li*1000+rep), Binary: binary, P: []float64{0.1, 0.3, 0.6}[rep%3], Vals: vs})
 		}
 	}
 	c.Parallel(len(grid), func(w, i int) {
